@@ -1595,8 +1595,8 @@ impl C18 {
 fn http_over_tcp(port: u16, b: &Built) -> Result<Resp, String> {
   use std::io::{Read, Write};
   let mut stream = std::net::TcpStream::connect(("127.0.0.1", port)).map_err(|e| format!("connect: {}", e))?;
-  let _ = stream.set_read_timeout(Some(std::time::Duration::from_secs(20)));
-  let _ = stream.set_write_timeout(Some(std::time::Duration::from_secs(20)));
+  let _ = stream.set_read_timeout(Some(std::time::Duration::from_secs(90)));
+  let _ = stream.set_write_timeout(Some(std::time::Duration::from_secs(90)));
   let mut head = format!("{} {} HTTP/1.1\r\nHost: 127.0.0.1\r\nConnection: close\r\nContent-Length: {}\r\n", b.method, b.path, b.body.len());
   if let Some(ct) = b.content_type {
     head.push_str(&format!("Content-Type: {}\r\n", ct));
@@ -1725,7 +1725,7 @@ pub fn loopback_pass(seed: u64) -> ExtraPass {
   let info = build_request(s, &json!({"kind": "info"}));
   let started = std::time::Instant::now();
   let mut up = false;
-  while started.elapsed() < std::time::Duration::from_secs(10) {
+  while started.elapsed() < std::time::Duration::from_secs(30) {
     if http_over_tcp(port, &info).map(|r| r.status == 200).unwrap_or(false) {
       up = true;
       break;
@@ -1735,7 +1735,7 @@ pub fn loopback_pass(seed: u64) -> ExtraPass {
   if !up {
     let _ = child.kill();
     let _ = child.wait();
-    pass.note = "skipped: the service did not answer /system/info within 10 s".to_string();
+    pass.note = "skipped: the service did not answer /system/info within 30 s".to_string();
     return pass;
   }
   let mut states: BTreeSet<SpecState> = BTreeSet::new();
